@@ -2703,6 +2703,8 @@ def for_refetch_to_while(model):
                 inc0 = strip(inc)
                 if _pure_expr(e) or inc0["kind"] != "BinaryOperator" or inc0.get("opcode") != "=":
                     continue
+                if not any(y["kind"] == "AtomicExpr" for y in walk(e)):
+                    continue            # only atomic fetches: other fetching loops are read in their for form by the rules
                 l = strip(kids(inc0)[0], casts=True)
                 if l["kind"] != "DeclRefExpr" or l["ref"].get("id") != vd.get("id") or _render(kids(inc0)[1]) != _render(e):
                     continue
@@ -2985,7 +2987,13 @@ def _cursor_pass(f):
     # initialiser); pointers computed once are left as they are
     for b in set(cursors.values()):
         fam = [v for v in cursors if cursors[v] == b]
-        if not any(defs.get(v) for v in fam):
+        # ... by being assigned another cursor of the family (hole = child): plain stepping walkers (p++, p += k) are
+        # induction variables, which the rules read as they are
+        def hops(v):
+            return any(kind == "assign" and any(y["kind"] == "DeclRefExpr" and y.get("ref", {}).get("id") in fam and
+                                                y["ref"]["id"] != v for y in walk(kids(node)[1]))
+                       for kind, node in defs.get(v, []))
+        if not any(hops(v) for v in fam):
             for v in fam:
                 cursors.pop(v, None)
     if not cursors:
